@@ -275,11 +275,14 @@ def split_executions(trace_path):
 
 
 def validate_batched(ctx, area, module, trace_path, cfg=None, env=None, max_reports=5, label=None,
-                     chunk_events=150000):
+                     chunk_events=150000, skip_x=()):
     """Validate a concatenated log; on rejection locate the offending executions by bisection over
     Reset-delimited executions.  Returns (n_validated, [rejected]) where rejected items are
     dict(x, events, confirmed).  A rejection is reported only if it repeats when re-run in isolation."""
     execs = split_executions(trace_path)
+    if skip_x:
+        skip_x = set(skip_x)
+        execs = [e for e in execs if e[0] not in skip_x]     # executions tainted by a sanitizer report
     if not execs:
         return 0, []
     rejected = []
@@ -382,7 +385,7 @@ LIB_LINUX = ["linux/io_epoll_context.cpp", "linux/io_uring_context.cpp", "linux/
 
 
 def build(ctx, name, srcs, lib=("inplace_stop_token.cpp", "async_stack.cpp", "exception.cpp"), std="c++17",
-          opt="-O1", san="address,undefined", defs=(), extra=(), cxx="g++", libs=("-lpthread",), incs=()):
+          opt="-O1", san="address,undefined", defs=(), extra=(), cxx="g++", libs=("-lpthread",), incs=(), recover=False):
     """Compile harness sources + selected library .cpp files from ctx.repo (current working tree),
     with -DUNIFEX_VERIF=1.  Cached by content hash.  Returns path of the executable."""
     repo = ctx.repo
@@ -395,6 +398,8 @@ def build(ctx, name, srcs, lib=("inplace_stop_token.cpp", "async_stack.cpp", "ex
         flags.append("-fcoroutines")
     if san:
         flags += ["-fsanitize=" + san, "-fno-sanitize-recover=undefined"]
+        if recover:
+            flags += ["-fsanitize-recover=address"]   # ASan reports do not end the process (run with halt_on_error=0)
     flags += ["-D" + d for d in defs] + list(extra)
     th = tree_hash([os.path.join(repo, "include"), os.path.join(repo, "source"), os.path.join(VERIF, "rt")] + list(incs))
     h = hashlib.sha1(("|".join([cxx] + flags + list(libs)) + th).encode())
@@ -508,7 +513,28 @@ def classify_death(rc, stderr):
     return ev
 
 
-def run_batches(ctx, exe, args, total, log_path, timeout=900, per_exec_timeout=None, env=None, max_deaths=300):
+def split_reports(stderr):
+    """Recoverable-ASan mode: the driver prints `@@X <unit>` to stderr at the start of every unit; returns
+    [(unit, report text)] for every sanitizer report found."""
+    out, cur, buf = [], None, []
+    def flush():
+        if buf and cur is not None:
+            txt = "".join(buf)
+            for part in re.split(r"(?==+\d+==ERROR: AddressSanitizer)", txt):
+                if "ERROR: AddressSanitizer" in part:
+                    out.append((cur, part))
+    for ln in stderr.splitlines(True):
+        m = re.match(r"@@X (\d+)", ln)
+        if m:
+            flush()
+            cur, buf = int(m.group(1)), []
+        else:
+            buf.append(ln)
+    flush()
+    return out
+
+
+def run_batches(ctx, exe, args, total, log_path, timeout=900, per_exec_timeout=None, env=None, max_deaths=300, recover=False):
     """Run executions [0,total) of a driver that accepts `--from K --to N --log FILE` (appending) and prints
     a final JSON summary line on stdout.  If the process dies in execution x (found from the last Reset line of
     the log) the death is recorded and the run resumes at x+1.
@@ -517,8 +543,22 @@ def run_batches(ctx, exe, args, total, log_path, timeout=900, per_exec_timeout=N
     if os.path.exists(log_path):
         os.remove(log_path)
     open(log_path, "w").close()
+    if recover:
+        env = dict(env or {})
+        env["ASAN_OPTIONS"] = SAN_ENV["ASAN_OPTIONS"] + ":halt_on_error=0:suppress_equal_pcs=0"
     while k < total:
         rc, so, se = run_exe(exe, list(args) + ["--from", k, "--to", total, "--log", log_path], timeout=timeout, env=env)
+        if recover:
+            seen_units = set()
+            for unit, txt in split_reports(se):
+                if unit in seen_units:
+                    continue           # one report per unit is enough; the unit is tainted anyway
+                seen_units.add(unit)
+                d = classify_death(71, txt)
+                d["x"] = unit
+                d["recovered"] = True
+                deaths.append(d)
+            se = re.sub(r"(?s)=+\d+==ERROR: AddressSanitizer.*?(?=@@X |\Z)", "", se) if rc == 0 else se
         summ = None
         for ln in so.splitlines():
             if ln.startswith("{"):
